@@ -2,6 +2,7 @@ package h
 
 import (
 	"fmt"
+	"strings"
 )
 
 // C02 — no falsification is lost: every failure signal fails the enclosing test.
@@ -206,7 +207,9 @@ func judgeC02(rc *RunCtx, cr *CheckRun, cellName string) {
 		}
 	} else {
 		rc.Inc("probe.signal_not_reached")
-		if w.TB.failed && cr.Verdict != "onlygen" {
+		if w.TB.failed && anyNoValidAction(cr) && strings.Contains(cr.VerdictText, "non-skipped") {
+			rc.Inc("probe.no_valid_action_failure") // Repeat's own documented failure: no action was able to run
+		} else if w.TB.failed && cr.Verdict != "onlygen" {
 			rc.V(viol("C02.R2", "failed-without-signal", "cell %s: no test case signalled a failure (passes and skips only) but the test is failed: %s", cellName, oneLine(cr.VerdictText, 160)))
 		}
 	}
